@@ -761,15 +761,35 @@ def r7_input_canonical(ctx):
                 ctx.check(ok, f"_ensure_dp: {'complex' if cplx else 'real'} input {'that already is' if already else 'that is not'} "
                               f"{'complex128' if cplx else 'float64'} -> {'returned as is (or converted again)' if already else 'converted to ' + target.split('.')[1]}", dp,
                           None if ok else repr(ret)[:200])
-    # ---- _get_header_info: type and multiplier
+    # ---- _get_header_info: type and multiplier.  Whatever container the function returns (tuple, dict, ...): the components that depend on the
+    # input being complex are exactly the Nastran type (4 / 2) and the reals per entry (2 / 1)
     gi = S.func_of(ctx, "OP4._get_header_info")
+    flat = {}
     for cplx in (True, False):
         W = S.base_world(ctx, L.state, "ndarray", cplx, rows=(1, 100), split_rows=False)
         ev = S.run_method(W, "OP4._get_header_info", {"matrix": W.matrix, "form": F.sym("form"), "is_ascii": S.FALSE})
         ret = ev.returns[-1][0] if ev.returns else None
-        got = (ret[3], ret[4]) if isinstance(ret, tuple) and len(ret) == 6 else None
-        judge(ctx, got, (F.const(4 if cplx else 2), F.const(2 if cplx else 1)),
-              f"_get_header_info: {'type 4 / two doubles per entry for complex' if cplx else 'type 2 / one double per entry for real'} input", gi)
+        if isinstance(ret, tuple):
+            flat[cplx] = list(ret)
+        elif hasattr(ret, "d") and isinstance(getattr(ret, "d"), dict):
+            flat[cplx] = [ret.d[k] for k in sorted(ret.d, key=repr)]
+        else:
+            flat[cplx] = None
+    for cplx in (True, False):
+        inst = f"_get_header_info: {'type 4 / two doubles per entry for complex' if cplx else 'type 2 / one double per entry for real'} input"
+        a, b = flat[True], flat[False]
+        if a is None or b is None or len(a) != len(b) or any(is_unknown(x) for x in a + b):
+            bad = [x for x in (a or []) + (b or []) if is_bad(x)]
+            if bad:
+                ctx.fail(inst, gi, bad[0].why)
+            else:
+                ctx.error(inst, gi, repr(flat[cplx])[:300])
+            continue
+        diff = sorted((const_int(x), const_int(y)) if is_rat(x) and is_rat(y) else (None, None) for x, y in zip(a, b) if not same(x, y))
+        got = [p[0 if cplx else 1] for p in diff]
+        want = [2, 4] if cplx else [1, 2]
+        ok = len(diff) == 2 and got == want
+        ctx.check(ok, inst, gi, None if ok else {"components that depend on the input type (complex, real)": repr(diff), "expected": "[(2, 1), (4, 2)]"})
     # ---- write dispatch: every named layout maps to its writer, for both encodings
     wr = S.func_of(ctx, "OP4.write")
     for enc in ENCS:
@@ -915,6 +935,31 @@ def closeness_atoms(v, out):
         return all(closeness_atoms(x, out) for x in args)
     if name in ("call:np.all", "call:all", "call:bool") and len(args) == 1:
         return closeness_atoms(args[0], out)
+    if name == "not" and len(args) == 1:
+        # not np.any(a != b)  is  np.all(a == b)
+        ui = unfn(args[0])
+        if ui and ui[0] in ("call:np.any", "call:any") and len(ui[1]) == 1:
+            uc = unfn(ui[1][0])
+            if uc and uc[0] == "cmp:NotEq" and len(uc[1]) == 2:
+                out.append(dict(kind="exact", a=uc[1][0], b=uc[1][1], rtol=0.0, atol=0.0, ref=None))
+                return True
+        return False
+    if name in ("call:np.any", "call:any") and len(args) == 1:
+        sub = []
+        if closeness_atoms(args[0], sub) and sub:
+            out.append(dict(sub[0], kind="weak", why="the comparison only has to hold for some entry (any), not for every entry of the two triangles"))
+            return True
+        return False
+    if name == "bool:Or":
+        sub = []
+        if all(closeness_atoms(x, sub) for x in args) and sub:
+            out.append(dict(sub[0], kind="weak", why="the comparisons are joined by `or`: one of them holding is enough to call the matrix symmetric"))
+            return True
+        return False
+    if name == "cmp:NotEq" and len(args) == 2:
+        out.append(dict(kind="weak", a=args[0], b=args[1], rtol=0.0, atol=0.0, ref=None,
+                        why="the two sides are required to differ: a symmetric matrix is not called symmetric"))
+        return True
     if name == "cmp:Eq" and len(args) == 2:
         out.append(dict(kind="exact", a=args[0], b=args[1], rtol=0.0, atol=0.0, ref=None))
         return True
@@ -1041,12 +1086,23 @@ def _rule_text(d):
     return f"max|a_ij - a_ji| <= {d['atol']:g} + {d['rtol']:g} * ({ref})"
 
 
+def _weak(ctx, atoms, who, rnode):
+    """a comparison that does not quantify over every pair of mirror entries (any / or / !=): reported, the rule stops there"""
+    bad = [d for d in atoms if d["kind"] == "weak"]
+    for d in bad:
+        ctx.fail(f"_is_symmetric ({who} input): the matrix is called symmetric only if every pair of mirror entries agrees", rnode,
+                 {"reason": d["why"], "left": repr(d["a"])[:200], "right": repr(d["b"])[:200]}, key=f"C04-R8|_is_symmetric|{who} arm: not a test over every pair")
+    return bool(bad)
+
+
 def _sparse_rule(ctx, ret, rnode):
     """one way out of the sparse arm (a returned test) -> the closeness rule it applies to the values of a pair of mirror entries (None when
     the rule cannot go on: the reason has been recorded).  Emits the mirror-symmetry obligations of that test."""
     atoms = []
     if ret is None or is_unknown(ret) or isinstance(ret, tuple) or not is_rat(ret) or not closeness_atoms(ret, atoms) or not atoms:
         ctx.error("_is_symmetric (sparse input): the test is a conjunction of element-wise comparisons", rnode, repr(ret)[:300])
+        return None
+    if _weak(ctx, atoms, "sparse", rnode):
         return None
     R, C = F.sym("r"), F.sym("c")
     triplet = [d for d in atoms if any(is_rat(d[k]) and (d[k].depends_on("r") or d[k].depends_on("c") or d[k].depends_on("v")) for k in ("a", "b"))]
@@ -1116,7 +1172,7 @@ def r8_symmetry_test(ctx):
         ctx.error("_is_symmetric (ndarray input): one comparison of the matrix with its own transpose", rnoded, repr(tests["dense"])[:300])
         return
     vd = atoms[0]
-    if not _mirror_check(ctx, vd, "M", "ndarray", rnoded):
+    if _weak(ctx, atoms, "ndarray", rnoded) or not _mirror_check(ctx, vd, "M", "ndarray", rnoded):
         return
     # ---- the sparse arm, one rule per way out
     rules = []
@@ -1232,12 +1288,15 @@ MANIFEST = {
             "header record), decode(encode(string header)) = identity for nonbigmat (2^16 packing) and bigmat layouts in ASCII and binary, declared "
             "nwords/reclen equal what readers consume, every layout switch uses the same rows >= 65536 boundary, the packed IS and the ASCII number "
             "field are checked over the whole value domain (two known findings: F1 ASCII field one character short for negative 3-digit exponents, "
-            "F2 IS overflows int32 for strings >= 16384 rows), sparse input is canonicalised, and the sparse symmetry test that decides form 6 is "
-            "mirror-symmetric under transposition (sort orders included), no function reachable from the binary loader reinterprets bytes read in the "
-            "file's byte order. Not decided: float() parsing exactness, "
+            "F2 IS overflows int32 for strings >= 16384 rows; a mask / shift / modulus that is narrower or wider than the 16-bit row field is kept as "
+            "the exact residue and fails the decode(encode) identity), sparse input is canonicalised, the sparse symmetry test that decides form 6 is "
+            "mirror-symmetric under transposition (sort orders included) and applies the same closeness rule to a pair of mirror entries as the ndarray "
+            "arm (same kind: exact / element-wise tolerance / tolerance from a reduction over the whole matrix; same tolerances), no function reachable "
+            "from the binary loader reinterprets bytes read in the file's byte order. Not decided: float() parsing exactness, "
             "_sparse_col_stats on arbitrary patterns, scipy.sparse behaviour.",
     "note": "Trusted: CPython ast; verifier/e2_formula.py polynomial arithmetic with the bit-operator model of verifier/op4_model.py (<< k = * 2^k; >> k, // 2^k, % 2^k "
-            "and & (2^k - 1) resolved only when the low part is declared below 2^k: first row + 1 <= rows < 2^16 for the nonbigmat layout); the symbolic "
+            "and & (2^k - 1) resolved only when the low part is declared below 2^k: first row + 1 <= rows < 2^16 for the nonbigmat layout; when its attained "
+            "interval provably leaves [0, 2^k) the exact residue x mod 2^k / x // 2^k is kept instead); the symbolic "
             "text / struct-record model of verifier/c04_txt.py (Python format specifications, fixed-width slicing, struct codes).",
     "technique": "symbolic evaluation of writers and loaders on generic records (format specifications, struct codes, slices as values); interval regimes for the row "
                  "count; interval bound on packed values",
